@@ -281,4 +281,189 @@ theorem and_clause_phase1 (fuel : Nat) (s : VM) (f : FUid) (i : Inst) (x : InstX
     (by simpa using S) (by simpa using hnd) F (by simpa using hv)
   simpa using this
 
+/-! ### or-group whose clauses are single atoms (any number of them) -/
+
+open NemoVerif.GroupVM (Br p1Brs) in
+/-- where a branch head is: `mp` = its match element, `mg` = the or-level `MergeHeads` -/
+def brCore (mp mg : Nat) : Br → Nat × HeadStatus
+  | .single _ => (mp, .active)
+  | .merging => (mg, .merging)
+  | .lost => (mg, .inactive)
+  | .multi _ _ => (mp, .inactive)
+
+open NemoVerif.GroupVM (Br) in
+def renderB (mg : Nat) (us : List (HUid × Nat)) (brs : List Br) : List HCore :=
+  List.zipWith (fun u b => (u.1, brCore u.2 mg b)) us brs
+
+open NemoVerif.GroupVM (Br) in
+def matchingB (e : Nat) : List (HUid × Nat) → List Br → List HUid
+  | u :: us, .single a :: bs => if a == e then u.1 :: matchingB e us bs else matchingB e us bs
+  | _ :: us, _ :: bs => matchingB e us bs
+  | _, _ => []
+
+open NemoVerif.GroupVM (Br) in
+def noMulti : List Br → Bool
+  | [] => true
+  | .multi _ _ :: _ => false
+  | _ :: bs => noMulti bs
+
+/-- where the end of the or-template is: `label l` at `pe`, then `MergeHeads u` -/
+structure OrShape (cfg : FlowCfg) (l u : String) (pe : Nat) : Prop where
+  hl : cfg.label l = some pe
+  hsize : pe + 1 < cfg.elements.size
+  hm : cfg.elements[pe + 1]! = .merge u
+
+/-- one branch head of an or-group (clause = one atom): it ends MERGING on the or-level `MergeHeads`; only its entry changes -/
+theorem advanceBranch_spec (fuel : Nat) (s : VM) (f : FUid) (h : HUid) (i : Inst) (x : InstX) (cfg : FlowCfg) (hd : Head)
+    (l u : String) (pe : Nat)
+    (H : HeadAt s f h i x cfg hd) (hown : x.ctxOwner = none) (hact : hd.status = .active)
+    (C : OrShape cfg l u pe)
+    (hgoto : cfg.elements[hd.pos + 1]! = .goto (.lit (.bool true)) l) (hlt : hd.pos + 1 < pe + 1) :
+    ∃ s' i', advanceMember (fuel + 2) f h s = .ok [] s' ∧ FlowAt s' f i' x cfg ∧ s'.r = s.r ∧
+      hview i' = (hview i).map (setCore h (pe + 1) .merging) := by
+  have hsz := C.hsize
+  have hnm0 : NotMatchAt cfg (hd.pos + 1) := notMatchAt_of cfg (hd.pos + 1) _ (by omega) hgoto rfl
+  obtain ⟨hg0, h0⟩ := setHeadPos_ok s f h i x cfg hd (hd.pos + 1) H.toFlowAt H.hh (by omega) hnm0
+  have H0 := headAt_setPos s f h i x cfg hd (hd.pos + 1) H (by omega) (by omega) hg0
+  obtain ⟨hg1, hg2, hsl⟩ := branch_segment_merges fuel _ f h _ x cfg _ l u pe H0 hown hact hgoto C.hl C.hsize C.hm (by simp; omega)
+  have H1 := headAt_setPos _ f h _ x cfg _ (pe + 1) H0 (by simp; omega) C.hsize hg1
+  have H2 := headAt_setStatus _ f h _ x cfg _ .merging H1 (by simp [hact]) (by decide) hg2
+  refine ⟨_, _, ?_, H2.toFlowAt, rfl, ?_⟩
+  · simp only [advanceMember, bind, EStateM.bind, getHead?, getIx, get, getThe, MonadStateOf.get, EStateM.get, pure, EStateM.pure,
+      H.hi, Option.bind, H.hh, h0, hsl]
+  · rw [hview_setStatus, hview_setPos, hview_setPos]
+    simp only [List.map_map]
+    apply List.map_congr_left
+    intro t _
+    simp only [Function.comp, setPosCore, setStCore, setCore]
+    split <;> simp_all
+
+open NemoVerif.GroupVM (Br p1Brs p1Br) in
+theorem renderB_fst (mg : Nat) : ∀ (us : List (HUid × Nat)) (bs : List Br), us.length = bs.length →
+    (renderB mg us bs).map (·.1) = us.map (·.1) := by
+  intro us
+  induction us with
+  | nil => intro bs _; simp [renderB]
+  | cons u us ih =>
+    intro bs hl
+    cases bs with
+    | nil => simp at hl
+    | cons b bs =>
+      have := ih bs (by simpa using hl)
+      simp only [renderB, List.zipWith_cons_cons, List.map_cons] at this ⊢
+      rw [this]
+
+open NemoVerif.GroupVM (Br) in
+theorem renderB_append (mg : Nat) (us1 us2 : List (HUid × Nat)) (b1 b2 : List Br) (hl : us1.length = b1.length) :
+    renderB mg (us1 ++ us2) (b1 ++ b2) = renderB mg us1 b1 ++ renderB mg us2 b2 := by
+  simp only [renderB]
+  exact List.zipWith_append hl
+
+open NemoVerif.GroupVM (Br p1Brs p1Br) in
+/-- invariant form for the branches of an or-group -/
+theorem or_group_phase1_aux (fuel : Nat) (f : FUid) (x : InstX) (cfg : FlowCfg) (l mu : String) (pe e : Nat)
+    (others : List HCore) (hown : x.ctxOwner = none) (C : OrShape cfg l mu pe) :
+    ∀ (rest : List Br) (ur : List (HUid × Nat)) (pre : List Br) (usPre : List (HUid × Nat)) (k : Nat) (s : VM) (i : Inst),
+      ur.length = rest.length → usPre.length = pre.length → noMulti rest = true →
+      MembersShape cfg l pe (usPre ++ ur) →
+      (others.map (·.1) ++ (usPre ++ ur).map (·.1)).Nodup →
+      FlowAt s f i x cfg → hview i = others ++ renderB (pe + 1) (usPre ++ ur) (pre ++ rest) →
+      ∃ s' i', runMembers (fuel + 2) f (matchingB e ur rest) s = .ok () s' ∧ FlowAt s' f i' x cfg ∧ s'.r = s.r ∧
+        hview i' = others ++ renderB (pe + 1) (usPre ++ ur) (pre ++ (p1Brs e k rest).1) := by
+  intro rest
+  induction rest with
+  | nil =>
+    intro ur pre usPre k s i hlr hlp _ _ _ F hv
+    have : ur = [] := List.eq_nil_of_length_eq_zero (by simpa using hlr)
+    subst this
+    refine ⟨s, i, ?_, F, rfl, ?_⟩
+    · simp [matchingB, runMembers, pure, EStateM.pure]
+    · simpa [p1Brs] using hv
+  | cons b r ih =>
+    intro ur pre usPre k s i hlr hlp hnm hshape hnd F hv
+    cases ur with
+    | nil => simp at hlr
+    | cons u ur' =>
+      have hlr' : ur'.length = r.length := by simpa using hlr
+      have skip : ∀ b' : Br, (matchingB e (u :: ur') (b :: r) = matchingB e ur' r) → ((p1Br e k b).1 = b') → b' = b → noMulti r = true →
+          ∃ s' i', runMembers (fuel + 2) f (matchingB e (u :: ur') (b :: r)) s = .ok () s' ∧ FlowAt s' f i' x cfg ∧ s'.r = s.r ∧
+            hview i' = others ++ renderB (pe + 1) (usPre ++ u :: ur') (pre ++ (p1Brs e k (b :: r)).1) := by
+        intro b' hm hp hb hnr
+        subst hb
+        obtain ⟨s', i', hrun, F', hr', hv'⟩ := ih ur' (pre ++ [b']) (usPre ++ [u]) (k + 1) s i hlr' (by simp [hlp]) hnr
+          (by rw [← append_cons_assoc]; exact hshape) (by rw [← append_cons_assoc]; exact hnd) F
+          (by rw [← append_cons_assoc, ← append_cons_assoc]; exact hv)
+        refine ⟨s', i', by rw [hm]; exact hrun, F', hr', ?_⟩
+        rw [hv']
+        simp only [p1Brs, hp, List.append_assoc, List.singleton_append]
+      cases b with
+      | multi ms need => simp [noMulti] at hnm
+      | merging => exact skip _ (by simp only [matchingB]) (by simp only [p1Br]) rfl (by simpa [noMulti] using hnm)
+      | lost => exact skip _ (by simp only [matchingB]) (by simp only [p1Br]) rfl (by simpa [noMulti] using hnm)
+      | single a =>
+        have hnr : noMulti r = true := by simpa [noMulti] using hnm
+        by_cases hae : (a == e) = true
+        · have hshape_u := hshape u (by simp)
+          have hndv : ((hview i).map (·.1)).Nodup := by
+            rw [hv, List.map_append, renderB_fst _ _ _ (by simp [hlp, hlr'])]; exact hnd
+          have hmem : (u.1, u.2, HeadStatus.active) ∈ hview i := by
+            rw [hv, renderB_append _ _ _ _ _ hlp]
+            simp [renderB, brCore]
+          obtain ⟨hd, hfh, hpos, hstat⟩ := findHead_of_mem_hview i hndv u.1 u.2 .active hmem
+          have hsz := C.hsize
+          have H : HeadAt s f u.1 i x cfg hd :=
+            { hi := F.hi, hx := F.hx, hc := F.hc, hh := hfh, hlt := by rw [hpos]; omega, hst := by rw [hstat]; decide }
+          obtain ⟨s1, i1, hadv, F1, hr1, hv1⟩ := advanceBranch_spec fuel s f u.1 i x cfg hd l mu pe H hown hstat C
+            (by rw [hpos]; exact hshape_u.1) (by rw [hpos]; exact hshape_u.2)
+          have hm : matchingB e (u :: ur') (Br.single a :: r) = u.1 :: matchingB e ur' r := by
+            simp only [matchingB, hae, if_true]
+          have hp : (p1Br e k (Br.single a)).1 = Br.merging := by simp only [p1Br, hae, if_true]
+          have hv1' : hview i1 = others ++ renderB (pe + 1) (usPre ++ u :: ur') (pre ++ Br.merging :: r) := by
+            have hnd' := hnd
+            rw [List.map_append, List.map_cons] at hnd'
+            have ho : u.1 ∉ others.map (·.1) := by
+              intro hmem'
+              exact (List.nodup_append.1 hnd').2.2 u.1 hmem' u.1 (by simp) rfl
+            have hnd2 := (List.nodup_append.1 hnd').2.1
+            have hpre : u.1 ∉ usPre.map (·.1) := by
+              intro hmem'
+              exact (List.nodup_append.1 hnd2).2.2 u.1 hmem' u.1 (by simp) rfl
+            have hur : u.1 ∉ ur'.map (·.1) := (List.nodup_cons.1 (List.nodup_append.1 hnd2).2.1).1
+            rw [hv1, hv, renderB_append _ usPre (u :: ur') pre (Br.single a :: r) hlp,
+              renderB_append _ usPre (u :: ur') pre (Br.merging :: r) hlp]
+            simp only [List.map_append]
+            rw [map_setCore_of_not_mem _ _ _ others ho,
+              map_setCore_of_not_mem _ _ _ (renderB (pe + 1) usPre pre) (by rw [renderB_fst _ usPre pre hlp]; exact hpre)]
+            congr 2
+            simp only [renderB, List.zipWith_cons_cons, List.map_cons, setCore, if_true]
+            have := map_setCore_of_not_mem u.1 (pe + 1) HeadStatus.merging (renderB (pe + 1) ur' r)
+              (by rw [renderB_fst _ ur' r hlr']; exact hur)
+            simp only [renderB] at this
+            rw [this]
+            rfl
+          obtain ⟨s', i', hrun, F', hr', hv'⟩ := ih ur' (pre ++ [Br.merging]) (usPre ++ [u]) (k + 1) s1 i1 hlr' (by simp [hlp]) hnr
+            (by rw [← append_cons_assoc]; exact hshape) (by rw [← append_cons_assoc]; exact hnd) F1
+            (by rw [← append_cons_assoc, ← append_cons_assoc]; exact hv1')
+          refine ⟨s', i', by rw [hm, runMembers_cons _ _ _ _ _ _ _ hadv]; exact hrun, F', by rw [hr', hr1], ?_⟩
+          rw [hv']
+          simp only [p1Brs, hp, List.append_assoc, List.singleton_append]
+        · have hae' : (a == e) = false := by simpa using hae
+          exact skip _ (by simp only [matchingB, hae', Bool.false_eq_true, if_false])
+            (by simp only [p1Br, hae', Bool.false_eq_true, if_false]) rfl hnr
+
+open NemoVerif.GroupVM (Br p1Brs) in
+/-- **PHASE 1 of an or-group of single atoms at CoreVM level, any number of branches.**  The branch heads that wait on
+    `match e` are advanced in order (`head.position += 1; slide`: `goto end → MergeHeads`, ACTIVE → MERGING); the heads of the
+    instance then are exactly `GroupVM.p1Brs e 0 brs`. -/
+theorem or_group_phase1 (fuel : Nat) (s : VM) (f : FUid) (i : Inst) (x : InstX) (cfg : FlowCfg) (l mu : String) (pe e : Nat)
+    (others : List HCore) (us : List (HUid × Nat)) (brs : List Br)
+    (F : FlowAt s f i x cfg) (hown : x.ctxOwner = none) (C : OrShape cfg l mu pe) (S : MembersShape cfg l pe us)
+    (hlen : us.length = brs.length) (hnm : noMulti brs = true) (hnd : (others.map (·.1) ++ us.map (·.1)).Nodup)
+    (hv : hview i = others ++ renderB (pe + 1) us brs) :
+    ∃ s' i', runMembers (fuel + 2) f (matchingB e us brs) s = .ok () s' ∧ FlowAt s' f i' x cfg ∧ s'.r = s.r ∧
+      hview i' = others ++ renderB (pe + 1) us (p1Brs e 0 brs).1 := by
+  have := or_group_phase1_aux fuel f x cfg l mu pe e others hown C brs us [] [] 0 s i hlen rfl hnm
+    (by simpa using S) (by simpa using hnd) F (by simpa using hv)
+  simpa using this
+
 end NemoVerif.CoreVM
